@@ -163,6 +163,29 @@ def rule_conversion(ctx: Ctx, repo: Repo) -> Dict[str, str]:
                   "a row whose name became stale after an earlier successful decode in the same process is still noticed (nothing resolved earlier is remembered)",
                   construct=f"{name}, after a successful decode of the same row: {k2} {str(res2)[:80]}", kind="history:" + name)
     ctx.floor("R-C10.2", "decode-then-stale histories", nh, 25)
+    # and the other way round within one process: a row that cannot be decoded (one of ITS types is stale), then another row of
+    # the SAME function whose own names all exist - the second is decodable and must decode (a failure remembered per
+    # function or per module would drop it)
+    ns = 0
+    for name, tr, mutate in scenarios:
+        if tr.fields["func"] != f or not name.startswith(("argument", "return", "yield")):
+            continue
+        w0, _ = _intact()
+        row_bad = _row(repo, w0, tr)
+        row_good = _row(repo, w0, trace(arg=CM.STR, ret=CM.INT))
+        w1, _ = _intact()
+        mutate(w1)
+        sc1 = CodecScenario(repo, ENC, "CallTraceRow.to_trace", w1)
+        k1, _r1 = sc1.result({tt.positional_params()[0]: row_bad})
+        if k1 != "raise":
+            continue
+        sc2 = CodecScenario(repo, ENC, "CallTraceRow.to_trace", w1)
+        k2, res2 = sc2.result({tt.positional_params()[0]: row_good}, carry=sc1.last_state)
+        ns += 1
+        ctx.check(k2 == "return", "R-C10.2", tt.fq,
+                  "a decodable row decodes also right after an undecodable row of the same function in the same process (the output is what the decodable traces alone give)",
+                  construct=f"{name}, then a row of the same function with existing types: {k2} {str(res2)[:80]}", kind="history-rev:" + name)
+    ctx.floor("R-C10.2", "stale-then-decodable histories", ns, 20)
     # sanity of the model: the intact world decodes
     w0, _ = _intact()
     k, res = CodecScenario(repo, ENC, "CallTraceRow.to_trace", w0).result({tt.positional_params()[0]: _row(repo, w0, trace(arg=OTHER, ret=CM.gen("List", NESTED)))})
